@@ -34,7 +34,7 @@ def junk_attrs(name, kind):
 
 
 JUNK_KINDS = ['empty', 'badPHid', 'badUHid', 'truncInHeaders', 'truncAfterHeaders', 'truncAfterSRC',
-              'corruptLater', 'random', 'pceSize', 'badUtf8Creator', 'badUtf8Src', 'hugeWordCount']
+              'corruptLater', 'random', 'pceSize', 'badUtf8Creator', 'badUtf8Src', 'hugeWordCount', 'noPrimarySrc', 'countTwo']
 
 
 def make_junk(rng, kind, base_pel):
@@ -65,6 +65,11 @@ def make_junk(rng, kind, base_pel):
         data[72 + 8 + 8 + 32 + 3] = 0xFF    # a byte of the reference code (first optional section is the SRC)
     elif kind == 'hugeWordCount':
         data[72 + 8 + 3] = 200              # valid word count far beyond the 9 words
+    elif kind == 'noPrimarySrc':
+        data[73] = ord('X')                 # the first optional section is no longer a Primary SRC: decodable,
+        #                                     but the SRC look-ups have nothing to match
+    elif kind == 'countTwo':
+        data[27] = 2                        # the section count says there is nothing after the headers
     elif kind == 'pceSize':
         pass
     return bytes(data)
